@@ -190,6 +190,16 @@ Fixpoint run_entries (i : io) (o : wopts) (s : wst) (es : list entry) : res wst 
   | e :: t => bind (step_entry i o s e) (fun s' => run_entries i o s' t)
   end.
 
+(* Successive AppendTar calls on one Writer.  The model follows the code after C03-fix-1: prevOffset and
+   prevOffsetUncompressed ([w_poff], [w_punc]) are fields of the Writer and survive from one call to the next
+   (before the fix each call restarted them from the stale w.cw.n and from 0, so that with MinChunkSize > 0 a
+   second call recorded offsets that are not member boundaries). *)
+Fixpoint append_calls (i : io) (o : wopts) (s : wst) (calls : list (list entry)) : res wst :=
+  match calls with
+  | [] => Ok s
+  | c :: t => bind (run_entries i o s c) (fun s' => append_calls i o s' t)
+  end.
+
 (* appendTar on a fresh Writer, then closeGz (Close / closeWithCombine) *)
 Definition append_tar (i : io) (o : wopts) (tlen : N) (es : list entry) (s : wst) : res wst :=
   bind (run_entries i o s es) (fun s1 =>
